@@ -30,7 +30,7 @@ ASSUMPTIONS = ["sasmodels.special provides the C names for the Python rendering 
 REQUIRED_MONITORS = ["python_equals_c", "both_equal_formula", "ill_formed_rejected"]
 REQUIRED_BUCKETS = {"quick": ["has:vector", "has:shell_volume", "has:radius_effective", "has:valid", "has:orientation", "dim:1d", "dim:2d",
                               "mesh:mono", "mesh:>=2dims", "trunc:1", "trunc:0", "cutoff>0", "invalid_points>0",
-                              "mono_invalid", "lane:asan"]}
+                              "mono_invalid", "lane:asan", "wrapper:first", "wrapper:revised"]}
 REQUIRED_BUCKETS["thorough"] = REQUIRED_BUCKETS["quick"]
 
 
@@ -457,6 +457,8 @@ def run_case(case, rec):
         if c == 0 and d < 3:
             rec.observe(definition=open(cpath).read()[:1200], I_c=Ic, I_python=Ip, formula=exp)
         kc.release()
+    if pmodel is not None and d % 3 == 1:
+        _run_wrapper(rec, rng, defn, name, dirpath, cpath, ppath, case)
     # one ill-formed variant of this definition must be rejected at load or build
     kind = sorted(ILL)[d % len(ILL)]
     bad_c, bad_p = write_files(defn, name + "_bad", dirpath, ill=ILL[kind])
@@ -470,6 +472,74 @@ def run_case(case, rec):
         except Exception:
             rec.check("ill_formed_rejected", True)
     rec.bucket("ill:" + kind)
+
+
+def _mono_pars(rng, info):
+    pars = {}
+    for p in info.parameters.call_parameters[2:]:
+        if p.type == "magnetic":
+            continue
+        lo, hi = p.limits
+        if p.name == "n_shells":
+            pars[p.name] = float(rng.integers(1, 4))
+        elif p.type == "sld":
+            pars[p.name] = float(rng.uniform(-1, 7))
+        elif p.type == "volume":
+            pars[p.name] = float(rng.uniform(5, 90))
+        else:
+            pars[p.name] = float(rng.uniform(max(lo, 0.1), min(hi, 3.0)))
+    return pars
+
+
+def _run_wrapper(rec, rng, defn, name, dirpath, cpath, ppath, case):
+    """The definition used as a component of another plugin (a sum of its C and its Python rendering), both
+    renderings already loaded on their own; then the definition is revised on disk (both renderings) and the
+    wrapper loaded again: both paths return the formula now on disk."""
+    from sasmodels import core as sascore, direct_model
+    wpath = os.path.join(dirpath, name + "_sum.py")
+    with open(wpath, "w") as f:
+        f.write('from sasmodels.core import load_model_info\nmodel_info = load_model_info(%r)\n' % (cpath + "+" + ppath))
+    t0 = os.stat(cpath).st_mtime
+    os.utime(wpath, (t0 - 50, t0 - 50))
+    q1 = np.exp(rng.uniform(math.log(1e-3), math.log(0.3), 4))
+    cur = defn
+    for step in ("first", "revised"):
+        if step == "revised":
+            cur = dict(defn)
+            cur["iq"] = ("+", ("*", ("k", float(rng.uniform(1.5, 4.0))), defn["iq"]), ("k", float(rng.uniform(0.1, 0.5))))
+            cur["form"] = ("*", ("k", float(rng.uniform(0.3, 0.7))), defn["form"])
+            if defn["shell"] is not None:
+                cur["shell"] = ("*", ("k", 0.5), defn["shell"])
+            write_files(cur, name, dirpath)
+            for pth in (cpath, ppath):
+                os.utime(pth, (t0 + 90, t0 + 90))
+        try:
+            winfo = sascore.load_model_info(wpath)
+            wmodel = sascore.build_model(winfo, platform="dll")
+            cinfo = sascore.load_model_info(cpath)
+        except Exception as exc:
+            rec.check("well_formed_definition_builds", False, {"wrapper": wpath, "step": step, "exception": repr(exc)[:1500]})
+            return
+        base = _mono_pars(rng, cinfo)
+        if cur["valid"] is not None:
+            base[cur["vols"][0]] = 1.2*base[cur["vols"][1]]
+        sa, sb = float(rng.uniform(0.5, 2)), float(rng.uniform(0.5, 2))
+        scale, bg = float(rng.uniform(0.5, 2)), float(rng.uniform(0, 0.5))
+        wp = {"scale": scale, "background": bg, "A_scale": sa, "B_scale": sb}
+        for kk, vv in base.items():
+            wp["A_" + kk], wp["B_" + kk] = vv, vv
+        kw = wmodel.make_kernel([q1])
+        Iw = np.asarray(direct_model.call_kernel(kw, wp), float)
+        kw.release()
+        mesh = direct_model.get_mesh(cinfo, dict(base, scale=1.0, background=0.0), dim="1d")
+        ref = formula(cur, cinfo, mesh, [q1], "1d", 0.0, 0)
+        one = ref["F2"]/(ref["shell"] if ref["W"] and ref["shell"] else 1.0)
+        exp = scale*(sa + sb)*one + bg
+        ok = core.close(Iw, exp, 1e-10, 1e-12*float(np.max(np.abs(exp))))
+        rec.check("both_equal_formula", ok,
+                  None if ok else {"definition": case["d"], "through": "sum plugin of the C and the Python rendering", "step": step,
+                                   "pars": wp, "observed": Iw, "formula_on_disk": exp, "Iq": txt(cur["iq"])[:300]})
+        rec.bucket("wrapper:" + step)
 
 
 def classify(case, v):
